@@ -151,6 +151,31 @@ def _warm(o):
         pass
 
 
+def _witnesses(o):
+    """objects a caller may hold that were built from what the accessors hand out (the dictionary form, the
+    vector array): an in-place operation on `o` re-orders o, not them - their values stay with their labels"""
+    from rsatoolbox.rdm.rdms import RDMs, rdms_from_dict
+    out = []
+    try:
+        out.append(('rdms_from_dict(to_dict())', rdms_from_dict(o.to_dict())))
+        out.append(('RDMs(get_vectors())', RDMs(o.get_vectors(), dissimilarity_measure=o.dissimilarity_measure,
+                                               descriptors=copy.deepcopy(o.descriptors),
+                                               rdm_descriptors=copy.deepcopy(o.rdm_descriptors),
+                                               pattern_descriptors=copy.deepcopy(o.pattern_descriptors))))
+    except Exception:
+        pass
+    return out
+
+
+def _witness_errors(wit, nan):
+    errs = []
+    for name, w in wit:
+        for kind, msg in selfdesc.verify(w, nan_pairs=nan, check_desc=False):
+            errs.append(('object-built-from-accessor-changed', '%s: %s %s' % (name, kind, msg)))
+            break
+    return errs
+
+
 def enabled(obj, model):
     from rsatoolbox.rdm import rdms as R
     from rsatoolbox.rdm import combine as CMB
@@ -226,15 +251,20 @@ def enabled(obj, model):
 
                 def f(o, arg=arg, p=p):
                     _warm(o)
+                    wit = _witnesses(o)
                     r = o.reorder(arg)
-                    return [(o, same(), _expect(o, rids, [cids[i] for i in p]) +
+                    return [(o, same(), _expect(o, rids, [cids[i] for i in p]) + _witness_errors(wit, model['nan']) +
                              ([] if r is None else [('returns-value', 'in-place operation returned %r' % type(r))]))]
                 add(('reorder', pname, form), f)
         for by in model['pd']:
             desc = [_plain(v) for v in obj.pattern_descriptors[by]]
             order = sorted(range(nc), key=lambda i: desc[i])   # python sort is stable
-            add(('sort_by', by, 'alpha'), lambda o, by=by, order=order:
-                [(_warm(o), o.sort_by(**{by: 'alpha'}), o, same(), _expect(o, rids, [cids[i] for i in order]))[2:5]])
+            def f_sort(o, by=by, order=order):
+                _warm(o)
+                wit = _witnesses(o)
+                o.sort_by(**{by: 'alpha'})
+                return [(o, same(), _expect(o, rids, [cids[i] for i in order]) + _witness_errors(wit, model['nan']))]
+            add(('sort_by', by, 'alpha'), f_sort)
             if len(set(map(str, desc))) == nc:
                 target = list(reversed(desc))
                 for form in ('list', 'ndarray'):
@@ -247,8 +277,9 @@ def enabled(obj, model):
             other = _other(o, model, 5)
             fp = fingerprint([other.dissimilarities, other.rdm_descriptors, other.pattern_descriptors])
             _warm(o)
+            wit = _witnesses(o)
             o.append(other)
-            extra = _expect(o, rids + [5, 6], cids)
+            extra = _expect(o, rids + [5, 6], cids) + _witness_errors(wit, model['nan'])
             if fingerprint([other.dissimilarities, other.rdm_descriptors, other.pattern_descriptors]) != fp:
                 extra.append(('argument-modified', 'append changed the appended object'))
             return [(o, same(), extra)]
